@@ -186,7 +186,11 @@ func (j *Journal) SplitWide(r *rand.Rand) map[string][]byte {
 	}
 	res := map[string][]byte{}
 	for _, f := range files {
-		res[f.path] = []byte(strings.Join(f.items, "\n") + "\n")
+		text := strings.Join(f.items, "\n") + "\n"
+		if r.Intn(4) == 0 {
+			text = strings.TrimRight(text, "\n")
+		}
+		res[f.path] = []byte(text)
 	}
 	return res
 }
@@ -273,7 +277,12 @@ func (j *Journal) SplitTree(r *rand.Rand, maxDepth, maxFanout int) map[string][]
 			b.WriteString(it.text)
 			b.WriteString("\n")
 		}
-		files[n.path] = []byte(b.String())
+		text := b.String()
+		if r.Intn(4) == 0 {
+			// the file ends with the last character of its last directive or include
+			text = strings.TrimRight(text, "\n")
+		}
+		files[n.path] = []byte(text)
 	}
 	return files
 }
